@@ -73,6 +73,13 @@ def diagnose(s, rows, l, clause, el):
                         break
         if nd.get("leak", {}).get("on"):
             d += " leak"
+        if nd["type"] == "T" and clause.startswith("C06."):
+            # a pump attached to the tank that reports reverse flow (the open C02 finding) moves water the tank rules do not expect
+            for x in s["links"]:
+                if x["type"] in ("headpump", "powerpump") and el in (x["a"], x["b"]) and \
+                   any(pr["flow"][x["name"]] < -Qtol for pr in rows[:l]):
+                    d += " (attached %s reports reverse flow: C02 pump-reverse finding)" % x["type"]
+                    break
         return d
     return ""
 
